@@ -497,6 +497,13 @@ class Check:
     # -- steps ------------------------------------------------------------------------------
     def do_prove(self, cores=(), extra_targets=()):
         self.proof = prove(self.prop, cores, extra_targets)
+        if self.proof["ok"] and self.tier == "thorough":
+            # independent re-check of the compiled theorem module by Lean's external checker
+            rc, out = sh(["lake", "env", "leanchecker", f"GrassProofs.{self.prop}"], cwd=LEAN, timeout=3600)
+            self.proof["leanchecker"] = {"rc": rc, "output": out[-500:]}
+            if rc != 0:
+                self.proof["ok"] = False
+                self.proof["lean_error"] = "leanchecker rejected the module:\n" + out[-2000:]
         if not self.proof["ok"]:
             log(f"[{self.prop}] PROOF STEP FAILED:\n{self.proof.get('lean_error')}\n{self.proof.get('forbidden')}")
         return self.proof["ok"]
@@ -570,6 +577,8 @@ class Check:
             "hand-written model Grass/*.lean tied by the correspondence run"]
         cov["theorems"] = {k.split(".")[-1]: v for k, v in thms.items()}
         cov["lean_files_scanned"] = (self.proof or {}).get("scanned_files", [])
+        if (self.proof or {}).get("leanchecker"):
+            cov["leanchecker"] = self.proof["leanchecker"]
         cov["known_findings_seen"] = [k["id"] for k in self.known_seen]
         cov["notes"] = self.notes
         cov["modelled_sources_changed"] = self.changed
